@@ -32,19 +32,19 @@ local notation "⟪" x ", " y "⟫" => inner ℝ x y
 /-- the inner-product algebra of the proximal-ADMM Lyapunov argument.
     `ex = x − x*`, `dx = x⁺ − x`, `ez = z − z*`, `dz = z⁺ − z`, `dzo = z − z_old`, `eu = u − u*`,
     `a1 = A ex`, `a2 = A dx`, `b1 = B ez`, `b2 = B dz`, `b3 = B dzo`; `u⁺ − u = a1 + a2 + b1 + b2`. -/
-theorem padmm_core {rho mu nu : ℝ} (hrho : 0 < rho) (ex dx : X) (ez dz dzo : Z) (eu a1 a2 b1 b2 b3 : U)
-    (hMx : 0 ≤ -(rho * mu * ⟪dx, ex + dx⟫) - rho * ⟪eu + (a1 + a2 + b1 + b2) - a2 - b2, a1 + a2⟫)
+theorem padmm_core {rho mu nu m : ℝ} (hrho : 0 < rho) (ex dx : X) (ez dz dzo : Z) (eu a1 a2 b1 b2 b3 : U)
+    (hMx : m * ‖ex + dx‖ ^ 2 ≤ -(rho * mu * ⟪dx, ex + dx⟫) - rho * ⟪eu + (a1 + a2 + b1 + b2) - a2 - b2, a1 + a2⟫)
     (hMz : 0 ≤ -(rho * nu * ⟪dz, ez + dz⟫) - rho * ⟪eu + (a1 + a2 + b1 + b2) - b2, b1 + b2⟫)
     (hMc : rho * ⟪a1 + a2 + b1 + b2, b2⟫ ≤ -(rho * (nu * ‖dz‖ ^ 2 - ‖b2‖ ^ 2)) + rho * (nu * ⟪dzo, dz⟫ - ⟪b3, b2⟫))
     (hQ : ‖b3 - b2‖ ^ 2 ≤ nu * ‖dzo - dz‖ ^ 2) :
     (rho * ‖eu + (a1 + a2 + b1 + b2)‖ ^ 2 + rho * ‖b1 + b2‖ ^ 2 + rho * (mu * ‖ex + dx‖ ^ 2 - ‖a1 + a2‖ ^ 2)
         + rho * (nu * ‖ez + dz‖ ^ 2 - ‖b1 + b2‖ ^ 2) + rho * (nu * ‖dz‖ ^ 2 - ‖b2‖ ^ 2))
       + (rho * (mu * ‖dx‖ ^ 2 - ‖a2‖ ^ 2) + rho * (nu * ‖dz‖ ^ 2 - ‖b2‖ ^ 2) + rho * ‖b2‖ ^ 2
-          + rho * ‖a1 + a2 + b1 + b2‖ ^ 2)
+          + rho * ‖a1 + a2 + b1 + b2‖ ^ 2) + 2 * (m * ‖ex + dx‖ ^ 2)
       ≤ rho * ‖eu‖ ^ 2 + rho * ‖b1‖ ^ 2 + rho * (mu * ‖ex‖ ^ 2 - ‖a1‖ ^ 2) + rho * (nu * ‖ez‖ ^ 2 - ‖b1‖ ^ 2)
         + rho * (nu * ‖dzo‖ ^ 2 - ‖b3‖ ^ 2) := by
   have hQ' := mul_le_mul_of_nonneg_left hQ hrho.le
-  simp only [← real_inner_self_eq_norm_sq] at hMc hQ' ⊢
+  simp only [← real_inner_self_eq_norm_sq] at hMx hMc hQ' ⊢
   simp only [inner_add_left, inner_add_right, inner_sub_left, inner_sub_right] at hMx hMz hMc hQ' ⊢
   simp only [mul_add, mul_sub] at hMx hMz hMc hQ' ⊢
   simp only [real_inner_comm eu a1, real_inner_comm eu a2, real_inner_comm eu b1, real_inner_comm eu b2, real_inner_comm eu b3, real_inner_comm a1 a2, real_inner_comm a1 b1, real_inner_comm a1 b2, real_inner_comm a1 b3, real_inner_comm a2 b1, real_inner_comm a2 b2, real_inner_comm a2 b3, real_inner_comm b1 b2, real_inner_comm b1 b3, real_inner_comm b2 b3, real_inner_comm ez dz, real_inner_comm ez dzo, real_inner_comm dz dzo, real_inner_comm ex dx] at hMx hMz hMc hQ' ⊢
@@ -109,9 +109,10 @@ theorem padmm_inv_step (p : PADMMParams ℝ X Z U) (G : Fn Z) (hrho : 0 < p.rho)
   rw [smul_inv_mul_sub p.rho p.nu hrho hnu] at this
   exact this
 
-theorem padmm_lyapunov_step (p : PADMMParams ℝ X Z U) (F : Fn X) (G : Fn Z) (xs : X) (zs : Z) (us : U)
-    (H : PADMMHyp p F G xs zs us) (s : PADMMState X Z U) (hI : PADMMInv p G s) :
-    padmmPsi p xs zs us (padmmSpecStep p s) + padmmDiss p s (padmmSpecStep p s) ≤ padmmPsi p xs zs us s := by
+theorem padmm_lyapunov_step_strong (p : PADMMParams ℝ X Z U) (F : Fn X) (G : Fn Z) (xs : X) (zs : Z) (us : U)
+    (H : PADMMHyp p F G xs zs us) {m : ℝ} (hsm : StrongSub F m) (s : PADMMState X Z U) (hI : PADMMInv p G s) :
+    padmmPsi p xs zs us (padmmSpecStep p s) + padmmDiss p s (padmmSpecStep p s)
+        + 2 * (m * ‖(padmmSpecStep p s).x - xs‖ ^ 2) ≤ padmmPsi p xs zs us s := by
   have hrho := H.rho
   have hmu := H.mu
   have hnu := H.nu
@@ -128,7 +129,7 @@ theorem padmm_lyapunov_step (p : PADMMParams ℝ X Z U) (F : Fn X) (G : Fn Z) (x
   rw [← hxn', smul_inv_mul_sub p.rho p.mu hrho hmu] at cx
   have cz := H.proxg (p.rho⁻¹ * p.nu⁻¹) (by positivity) (s.z - p.nu⁻¹ • p.BH (p.A xn + p.B s.z - p.c + s.u))
   rw [← hzn', smul_inv_mul_sub p.rho p.nu hrho hnu] at cz
-  have mx := Fn.subgrad_monotone cx H.kktx
+  have mx := hsm _ _ _ _ cx H.kktx
   have mz := Fn.subgrad_monotone cz H.kktz
   have mc := Fn.subgrad_monotone cz hI.i2
   -- the vectors of the core lemma
@@ -152,7 +153,7 @@ theorem padmm_lyapunov_step (p : PADMMParams ℝ X Z U) (F : Fn X) (G : Fn Z) (x
   have ezn : zn - zs = ez + dz := by simp only [hez, hdz]; abel
   have eAxn : p.A (xn - xs) = p.A ex + p.A dx := by rw [exn, H.addA]
   have eBzn : p.B (zn - zs) = p.B ez + p.B dz := by rw [ezn, H.addB]
-  have hMx : 0 ≤ -(p.rho * p.mu * ⟪dx, ex + dx⟫)
+  have hMx : m * ‖ex + dx‖ ^ 2 ≤ -(p.rho * p.mu * ⟪dx, ex + dx⟫)
       - p.rho * ⟪eu + (p.A ex + p.A dx + p.B ez + p.B dz) - p.A dx - p.B dz, p.A ex + p.A dx⟫ := by
     have e1 : (p.rho * p.mu) • (s.x - xn) - p.rho • p.AH ((2 : ℝ) • s.u - s.uOld) - -(p.rho • p.AH us)
         = -((p.rho * p.mu) • dx) - p.rho • p.AH ((2 : ℝ) • s.u - s.uOld) + p.rho • p.AH us := by
@@ -212,6 +213,12 @@ theorem padmm_lyapunov_step (p : PADMMParams ℝ X Z U) (F : Fn X) (G : Fn Z) (x
   unfold padmmPsi padmmDiss
   rw [heu', hdu, hzo, ← hxn, ← hzn, exn, ezn, H.addA, ← hdx, ← hdz, ← hdzo, ← hex, ← hez, ← heu]
   nlinarith [core]
+
+theorem padmm_lyapunov_step (p : PADMMParams ℝ X Z U) (F : Fn X) (G : Fn Z) (xs : X) (zs : Z) (us : U)
+    (H : PADMMHyp p F G xs zs us) (s : PADMMState X Z U) (hI : PADMMInv p G s) :
+    padmmPsi p xs zs us (padmmSpecStep p s) + padmmDiss p s (padmmSpecStep p s) ≤ padmmPsi p xs zs us s := by
+  have := padmm_lyapunov_step_strong p F G xs zs us H (strongSub_zero F) s hI
+  simpa using this
 
 theorem padmmPsi_nonneg (p : PADMMParams ℝ X Z U) (F : Fn X) (G : Fn Z) (xs : X) (zs : Z) (us : U)
     (H : PADMMHyp p F G xs zs us) (s : PADMMState X Z U) : 0 ≤ padmmPsi p xs zs us s := by
@@ -371,9 +378,11 @@ theorem ladmm_feasible_step (p : LADMMParams ℝ X Z) (G : Fn Z) (hnu : 0 < p.nu
   rw [e] at this
   exact this
 
-theorem ladmm_lyapunov_step (p : LADMMParams ℝ X Z) (F : Fn X) (G : Fn Z) (xs : X) (us : Z)
-    (H : LADMMHyp p F G xs us) (s : LADMMState X Z) (hpre : G.Subgrad s.z ((1 / p.nu) • s.u)) :
-    ladmmV p xs us (ladmmSpecStep p s) + ladmmDiss p s (ladmmSpecStep p s) ≤ ladmmV p xs us s := by
+theorem ladmm_lyapunov_step_strong (p : LADMMParams ℝ X Z) (F : Fn X) (G : Fn Z) (xs : X) (us : Z)
+    (H : LADMMHyp p F G xs us) {m : ℝ} (hsm : StrongSub F m) (s : LADMMState X Z)
+    (hpre : G.Subgrad s.z ((1 / p.nu) • s.u)) :
+    ladmmV p xs us (ladmmSpecStep p s) + ladmmDiss p s (ladmmSpecStep p s)
+        + 2 * (m * ‖(ladmmSpecStep p s).x - xs‖ ^ 2) ≤ ladmmV p xs us s := by
   have hmu := H.mu
   have hnu := H.nu
   have subC := sub_of_add p.C H.add
@@ -386,7 +395,7 @@ theorem ladmm_lyapunov_step (p : LADMMParams ℝ X Z) (F : Fn X) (G : Fn Z) (xs 
   rw [← hxn'] at cx
   have cz := ladmm_feasible_step p G hnu H.proxg s
   rw [← hzn, hun] at cz
-  have mx := Fn.subgrad_monotone cx H.kktx
+  have mx := hsm _ _ _ _ cx H.kktx
   have mz := Fn.subgrad_monotone cz H.kktz
   have mc := Fn.subgrad_monotone cz hpre
   set ex := s.x - xs with hex
@@ -402,7 +411,7 @@ theorem ladmm_lyapunov_step (p : LADMMParams ℝ X Z) (F : Fn X) (G : Fn Z) (xs 
   have eCxn : p.C (xn - xs) = p.C ex + p.C dx := by rw [exn, H.add]
   have hdu : s.u + p.C xn - zn - s.u = p.C ex + p.C dx + -ez + -dz := by
     rw [ea1, ea2, hez, hdz]; abel
-  have hMx : 0 ≤ -(1 / p.nu * (p.nu / p.mu) * ⟪dx, ex + dx⟫)
+  have hMx : m * ‖ex + dx‖ ^ 2 ≤ -(1 / p.nu * (p.nu / p.mu) * ⟪dx, ex + dx⟫)
       - 1 / p.nu * ⟪eu + (p.C ex + p.C dx + -ez + -dz) - p.C dx - -dz, p.C ex + p.C dx⟫ := by
     have e1 : (1 / p.mu) • (s.x - (p.mu / p.nu) • p.Cadj (p.C s.x - s.z + s.u) - xn) - -((1 / p.nu) • p.Cadj us)
         = -((1 / p.mu) • dx) - (1 / p.nu) • p.Cadj (p.C s.x - s.z + s.u) + (1 / p.nu) • p.Cadj us := by
@@ -449,6 +458,12 @@ theorem ladmm_lyapunov_step (p : LADMMParams ℝ X Z) (F : Fn X) (G : Fn Z) (xs 
   have e3 : -ez + -dz = -(ez + dz) := by abel
   rw [e3, norm_neg] at core
   nlinarith [core]
+
+theorem ladmm_lyapunov_step (p : LADMMParams ℝ X Z) (F : Fn X) (G : Fn Z) (xs : X) (us : Z)
+    (H : LADMMHyp p F G xs us) (s : LADMMState X Z) (hpre : G.Subgrad s.z ((1 / p.nu) • s.u)) :
+    ladmmV p xs us (ladmmSpecStep p s) + ladmmDiss p s (ladmmSpecStep p s) ≤ ladmmV p xs us s := by
+  have := ladmm_lyapunov_step_strong p F G xs us H (strongSub_zero F) s hpre
+  simpa using this
 
 theorem ladmmV_nonneg (p : LADMMParams ℝ X Z) (F : Fn X) (G : Fn Z) (xs : X) (us : Z) (H : LADMMHyp p F G xs us)
     (s : LADMMState X Z) : 0 ≤ ladmmV p xs us s := by
@@ -553,5 +568,73 @@ theorem ladmm_residuals_tendsto (p : LADMMParams ℝ X Z) (F : Fn X) (G : Fn Z) 
     have : p.nu * (1 / p.nu * ‖(iter (ladmmSpecStep p) (k + 1) s1).z - (iter (ladmmSpecStep p) k s1).z‖ ^ 2)
         = ‖(iter (ladmmSpecStep p) (k + 1) s1).z - (iter (ladmmSpecStep p) k s1).z‖ ^ 2 := by field_simp
     nlinarith
+
+/-! ### strongly convex `f`: the iterates converge to the minimiser from every start -/
+
+theorem padmm_x_tendsto (p : PADMMParams ℝ X Z U) (F : Fn X) (G : Fn Z) (xs : X) (zs : Z) (us : U)
+    (H : PADMMHyp p F G xs zs us) {m : ℝ} (hm : 0 < m) (hsm : StrongSub F m) (s : PADMMState X Z U) :
+    Filter.Tendsto (fun k => (iter (padmmSpecStep p) k s).x) Filter.atTop (nhds xs) := by
+  have hI1 := padmm_inv_step p G H.rho H.nu H.proxg s
+  set s1 := padmmSpecStep p s with hs1
+  have hsum : ∀ k, (∑ j ∈ Finset.range k, 2 * (m * ‖(iter (padmmSpecStep p) (j + 1) s1).x - xs‖ ^ 2))
+      + padmmPsi p xs zs us (iter (padmmSpecStep p) k s1) ≤ padmmPsi p xs zs us s1 := by
+    intro k
+    induction k with
+    | zero => simp [iter]
+    | succ k ih =>
+      rw [Finset.sum_range_succ]
+      have h := padmm_lyapunov_step_strong p F G xs zs us H hsm _ (padmm_inv_iter p F G xs zs us H s1 hI1 k)
+      rw [← iter_succ' (padmmSpecStep p) k s1] at h
+      have := padmmDiss_nonneg p F G xs zs us H (iter (padmmSpecStep p) k s1) (iter (padmmSpecStep p) (k + 1) s1)
+      linarith
+  have hT : Filter.Tendsto (fun k => 2 * (m * ‖(iter (padmmSpecStep p) (k + 1) s1).x - xs‖ ^ 2)) Filter.atTop (nhds 0) := by
+    apply tendsto_zero_of_partial_sums_le (c := padmmPsi p xs zs us s1)
+    · intro n; positivity
+    · intro n
+      have := hsum n
+      have := padmmPsi_nonneg p F G xs zs us H (iter (padmmSpecStep p) n s1)
+      linarith
+  have hb := hT.const_mul (1 / (2 * m))
+  rw [mul_zero] at hb
+  rw [← Filter.tendsto_add_atTop_iff_nat 2, tendsto_iff_norm_sub_tendsto_zero]
+  refine tendsto_zero_of_sq_le (fun k => norm_nonneg _) (fun k => ?_) hb
+  have e : iter (padmmSpecStep p) (k + 2) s = iter (padmmSpecStep p) (k + 1) s1 := rfl
+  rw [e]
+  have : 1 / (2 * m) * (2 * (m * ‖(iter (padmmSpecStep p) (k + 1) s1).x - xs‖ ^ 2))
+      = ‖(iter (padmmSpecStep p) (k + 1) s1).x - xs‖ ^ 2 := by field_simp
+  rw [this]
+
+theorem ladmm_x_tendsto (p : LADMMParams ℝ X Z) (F : Fn X) (G : Fn Z) (xs : X) (us : Z)
+    (H : LADMMHyp p F G xs us) {m : ℝ} (hm : 0 < m) (hsm : StrongSub F m) (s : LADMMState X Z) :
+    Filter.Tendsto (fun k => (iter (ladmmSpecStep p) k s).x) Filter.atTop (nhds xs) := by
+  have hpre := ladmm_feasible_step p G H.nu H.proxg s
+  set s1 := ladmmSpecStep p s with hs1
+  have hsum : ∀ k, (∑ j ∈ Finset.range k, 2 * (m * ‖(iter (ladmmSpecStep p) (j + 1) s1).x - xs‖ ^ 2))
+      + ladmmV p xs us (iter (ladmmSpecStep p) k s1) ≤ ladmmV p xs us s1 := by
+    intro k
+    induction k with
+    | zero => simp [iter]
+    | succ k ih =>
+      rw [Finset.sum_range_succ]
+      have h := ladmm_lyapunov_step_strong p F G xs us H hsm _ (ladmm_feasible_iter p F G xs us H s1 hpre k)
+      rw [← iter_succ' (ladmmSpecStep p) k s1] at h
+      have := ladmmDiss_nonneg p F G xs us H (iter (ladmmSpecStep p) k s1) (iter (ladmmSpecStep p) (k + 1) s1)
+      linarith
+  have hT : Filter.Tendsto (fun k => 2 * (m * ‖(iter (ladmmSpecStep p) (k + 1) s1).x - xs‖ ^ 2)) Filter.atTop (nhds 0) := by
+    apply tendsto_zero_of_partial_sums_le (c := ladmmV p xs us s1)
+    · intro n; positivity
+    · intro n
+      have := hsum n
+      have := ladmmV_nonneg p F G xs us H (iter (ladmmSpecStep p) n s1)
+      linarith
+  have hb := hT.const_mul (1 / (2 * m))
+  rw [mul_zero] at hb
+  rw [← Filter.tendsto_add_atTop_iff_nat 2, tendsto_iff_norm_sub_tendsto_zero]
+  refine tendsto_zero_of_sq_le (fun k => norm_nonneg _) (fun k => ?_) hb
+  have e : iter (ladmmSpecStep p) (k + 2) s = iter (ladmmSpecStep p) (k + 1) s1 := rfl
+  rw [e]
+  have : 1 / (2 * m) * (2 * (m * ‖(iter (ladmmSpecStep p) (k + 1) s1).x - xs‖ ^ 2))
+      = ‖(iter (ladmmSpecStep p) (k + 1) s1).x - xs‖ ^ 2 := by field_simp
+  rw [this]
 
 end Scico.Steps
